@@ -36,6 +36,20 @@ Theorem C05_shachain_rejects : forall (H : bytes -> bytes) s idx secret (i : nat
   provide_secret H s idx secret = None.
 Proof. exact provide_rejects. Qed.
 
+(** After ANY number of honest updates, a secret accepted for the next index collides under [H] with
+    the correctly generated one (after the same one-bit flip) for every slot below the index's
+    slot: forging a revocation secret for an even index needs a hash collision. (For an odd index
+    there is no lower slot; the channel checks those against the announced point, see
+    [C05_secret_checked].) *)
+Theorem C05_shachain_forgery_needs_collision : forall (H : bytes -> bytes) seed (n : nat) s secret s' (i : nat),
+  Z.of_nat n < 2 ^ 48 ->
+  feed H seed n = Some s ->
+  provide_secret H s (2 ^ 48 - Z.of_nat n - 1) secret = Some s' ->
+  Z.of_nat i < place_secret (2 ^ 48 - Z.of_nat n - 1) ->
+  H (flip_bit (Z.of_nat i) secret) =
+  H (flip_bit (Z.of_nat i) (build_commitment_secret H seed (2 ^ 48 - Z.of_nat n - 1))).
+Proof. exact forged_after_feed. Qed.
+
 (** ** The revocation discipline of a node, for every operation list
 
     [ops] ranges over ALL lists of operations of Model/RevokeLog.v: every interleaving of local
